@@ -146,7 +146,7 @@ SCHEDULES = {'schedule-off': [1.0, 1.0, 1.0, 0.5, 0.0], 'schedule-on': [0.0, 0.0
              'schedule-blink': [1.0, 0.0, 0.0, 1.0, 0.0, 1.0, 1.0, 0.0, 0.5, 1.0]}
 
 
-def gen_problem(rng, tier_big=False, shapes=None, profile='legacy', spell=None, kinds=None, pattern=None, m=None, lo_range=None):
+def gen_problem(rng, tier_big=False, shapes=None, profile='legacy', spell=None, kinds=None, pattern=None, m=None, lo_range=None, all_active=False):
     """random convex problem with known optimum (KKT construction); returns a JSON-able dict.
     pattern = dict(mode, response, signal): response `response` (0 = objective, k = k-th constraint, clamped to the last one) depends on
     the variable signal `signal` ONLY through hinge terms  h_j max(0, sg_j (x_j - u_j))^2, so that its sensitivity with respect to
@@ -257,7 +257,7 @@ def gen_problem(rng, tier_big=False, shapes=None, profile='legacy', spell=None, 
             v = np.array([rnd(rng, 0.2, 1.5) * rng.choice((1, -1)) for _ in range(n)]) * dep
             w = np.array([rnd(rng, -0.5, 0.5) for _ in range(n)]) * dep
             f = Fn(z, z, z, w, rnd(rng, 0.3, 1.5), v, rnd(rng, -1.0, 1.0), 0)
-        active = rng.random() < 0.6
+        active = rng.random() < 0.6 or all_active
         slack = 0.0 if active else rnd(rng, 0.2, 1.5)
         # scale the constraint to O(1) gradients, then shift so that f(x*) = -slack
         gsc = max(1e-3, float(np.abs(f.grad(xs)).max()))
@@ -380,6 +380,10 @@ def run_problem(pym, prob, maxit=None):
         k = len(rec.callbacks)
         rec.callbacks.append([(np.ndim(v.state) == 0, np.array(v.state, dtype=float).ravel().copy(),
                                type(v.state).__name__, np.asarray(v.state).dtype) for v in variables])
+        # the state objects themselves (what a user's callback may keep, e.g. a design history), re-inspected later
+        rec.held += [[f'state of variable signal x{i} seen by the callback of iteration {k}', v.state, np.array(v.state).copy(), 'minimize_mma',
+                      'a design seen in the variable signals is not modified afterwards (state object held by the caller, re-inspected later)']
+                     for i, v in enumerate(variables) if isinstance(v.state, np.ndarray)]
         # continuation: the weights of the hinge terms of this iteration (what a user's callback does between iterations)
         for i, ws in schedule.items():
             fns[i].h = base_h[i] * ws[min(k, len(ws) - 1)]
@@ -457,7 +461,8 @@ def run_problem(pym, prob, maxit=None):
         s.msgs = buf.getvalue().count('MMA Subsolver')
         s.ret = [np.array(v, dtype=float).copy() for v in ret]
         # the objects themselves, held by reference and re-inspected later (after the following subproblems, after the run, after later runs)
-        rec.held += [[f'subsolv result {nm} of iteration {len(rec.sub)}', v, np.array(v).copy()]
+        rec.held += [[f'subsolv result {nm} of iteration {len(rec.sub)}', v, np.array(v).copy(), 'subsolv',
+                      'the solution returned by subsolv is not modified afterwards (object held by the caller, re-inspected later)']
                      for nm, v in zip(('x', 'y', 'z', 'lam', 'xsi', 'eta', 'mu', 'zet', 's'), ret) if isinstance(v, np.ndarray)]
         if 'call' in cur:
             cur['call'].sub = s
@@ -933,9 +938,9 @@ def inspect_held(ctx, rec, prob, label, when):
     ctx.search_evaluations += 1
     case = dict(label=label, problem=prob, reinspected_after=when)
     for item in rec.held:
-        name, obj, snap = item
+        name, obj, snap, site, pred = item
         if not np.array_equal(obj, snap, equal_nan=True):
-            ctx.violation('impl-violates', 'subsolv', 'the solution returned by subsolv is not modified afterwards (object held by the caller, re-inspected later)',
+            ctx.violation('impl-violates', site, pred,
                           'several subproblem solves / optimisations in one process', dict(case, object=name), expected=snap.tolist(), got=np.array(obj).tolist())
             item[2] = np.array(obj).copy()
             break
@@ -1070,11 +1075,25 @@ def run(ctx):
                 'One case = one recorded iteration (mmasub + subsolv call) or one variable-'
                 'handling record of a run; non-trivial when n >= 2 or the iteration has a history (k >= 2); distinct by (run, iteration, aspect). '
                 'Corpus first (edge cases: single scalar, empty array signal, 1-element array, all variables on bounds, the witness of the '
-                'subsolv give-up finding); a malformed stream compares exception classes only.')
+                'subsolv give-up finding); a malformed stream compares exception classes only.  HISTORIES (on every seed, own random stream): '
+                '12 (quick) / 36 problems in which one response depends on one variable signal only through convex C1 hinge terms h*max(0, +-(x-u))^2, '
+                'so that the sensitivity the module reports for that signal is an array in some iterations and None in others: driven by the iterate (term active '
+                'at the start and inactive at the optimum, the mirror image, inactive at the start and active at the optimum) or by fn_callback (continuation '
+                'weights 1 1 1 .5 0 / 0 0 0 .5 1 / 1 0 0 1 0 1 1 0 .5 1 set per iteration), for constraints and for the objective; at EVERY recorded iteration g / dg '
+                'and the gradient of the P/Q approximations are compared with the independently evaluated value / gradient of the response as it is in THAT iteration '
+                '(None counted as zero), and the rows of dg are compared exactly with Model/MMAvars.sens_row applied to what the modules reported in that iteration '
+                '(the iterations at which the None pattern changes are the ones evaluated inside Coq).  SEVERAL OPTIMISATIONS PER PROCESS: a sequence of 7 runs of equal '
+                'size (n, m) with disjoint boxes, of another size, of the same n spread over other signals, scalar-only, and the first one again (must reproduce its '
+                'iterates); after every run the four runs before it, and at the end all runs of the process, are re-inspected: the variable signals still hold the final '
+                'design, every array object subsolv returned (held by reference by the recorder, all iterations) and the caller\'s bound / move-limit / initial-state '
+                'objects still hold what they held.')
     ctx.assumptions += [
         'theorems are over exact real arithmetic; floats are tied by the 1e-9 relative comparison in Q on recorded inputs',
         'the starting design lies in [xmin, xmax], xmin < xmax, 0 < move, 0 < albefa < 1, asyinit > 0, asybound > 0 (what the generator produces; '
         'asybound >= 1 for the two-sided clamp)',
+        'responses with hinge terms are evaluated inside Coq by Model/MMAcorr.hval / hgrad (max over Q); the optimum of a problem whose weights are changed by the callback '
+        'is that of the final weights; when the objective depends on a signal only through hinge terms the optimum is not unique and convergence is not demanded; '
+        'the pattern problems have all constraints active at the optimum (inactive ones make subsolv give up, K03, 20 s per run)',
         'variable signals hold Python/numpy real scalars or 1-D arrays of dtype int32 / int64 / float32 / float64 (an n-D array is flattened by the write-back: its shape '
         'is not restored; a 0-d array as a bound raises TypeError in len() and is not generated); modules do not modify the variable signals',
         'typed model: astype is a parameter of the theorems (only float64 -> float64 = identity is used); over Q it is truncation towards zero for integer targets and the '
@@ -1097,7 +1116,8 @@ def run(ctx):
         'numpy dtype semantics embodied in Model/MMAvars.v (np.append = concatenate with promotion, zeros_like / ones_like keep the dtype, slice assignment casts to the target dtype): '
         'the promotion table is validated against numpy on every run, the rest by the exact dtype + value correspondence',
         'same polymorphic model term interpreted over R (theorems) and over Q (evaluation); no Q2R transfer lemma',
-        'monkeypatching of pymoto.common.mma.subsolv / residual / MMA.mmasub records faithfully (wrappers only copy arguments and results)',
+        'monkeypatching of pymoto.common.mma.subsolv / residual / MMA.mmasub records faithfully (wrappers only copy arguments and results; the array objects subsolv '
+        'returns are additionally held by reference); the recording response modules report a block of the gradient that vanishes identically as None',
     ]
     vlib.audit(ctx)
     if not vlib.ensure_static(ctx, ['theories/Props/C10.vo', 'theories/Model/MMAcorr.vo']):
@@ -1123,9 +1143,11 @@ def run(ctx):
     # ---- several optimisations of EQUAL size (n, m) with disjoint boxes, of a different size, with the same n spread over other
     #      signals, and the first one again: every earlier run is re-inspected after every later one (Ledger), the repeated run must
     #      reproduce the first one
+    import random as _random
+    srng = _random.Random(ctx.seed * 7919 + 1010)     # own stream: the generated problems below stay what they were for a given seed
     for tag, kw_ in (('A', dict(shapes=[5], m=1)), ('B', dict(shapes=[5], m=1, lo_range=(6.0, 7.0))), ('C', dict(shapes=[3, 0], m=2)),
                      ('D', dict(shapes=[2, 3], m=1, lo_range=(-9.0, -8.0))), ('E', dict(shapes=[0, 0], m=2)), ('F', dict(shapes=[0, 0], m=2, lo_range=(11.0, 12.0)))):
-        sp = gen_problem(rng, **kw_)
+        sp = gen_problem(srng, all_active=True, **kw_)
         sp.update(verbosity=0, none_sens=False)
         todo.append((f'sequence:{tag}', sp, 12, False, [0, 11]))
     todo.append(('sequence:A again', json.loads(json.dumps(todo[-6][1])), 12, False, [11]))
@@ -1136,7 +1158,11 @@ def run(ctx):
     for t in range(len(PATTERN_MODES) * (2 if quick else 6)):
         mode = PATTERN_MODES[t % len(PATTERN_MODES)]
         shapes = list(pshapes[t % len(pshapes)])
-        pp = gen_problem(rng, shapes=shapes, pattern=dict(mode=mode, response=presps[t % len(presps)], signal=(t // 2) % len(shapes)), m=(2, 1, 3)[t % 3])
+        resp = presps[t % len(presps)]
+        if resp == 0 and mode == 'on-at-optimum':       # nothing moves the variables of an objective term that is inactive at the start
+            mode = 'off-at-optimum'
+        # (all constraints active at the optimum: with inactive ones subsolv often gives up, known finding K03, and a run takes 20 s)
+        pp = gen_problem(srng, shapes=shapes, pattern=dict(mode=mode, response=resp, signal=(t // 2) % len(shapes)), m=(2, 1, 3)[t % 3], all_active=True)
         pp['kw'] = {k: v for k, v in pp['kw'].items() if k in ('mmaversion', 'epsimin')}        # default asymptote parameters
         pp['verbosity'] = (0, 4, 0, 3)[t % 4]
         todo.append((f'pattern:{mode}:{t}', pp, 40, pp['pattern']['response'] != 0, None))
